@@ -106,6 +106,20 @@ def apply_op(f, ref, op):
                                     f"({len(alias)},{alias.as_integer:#x}), it was ({pre_state[0]},{pre_state[1]:#x})")
             else:
                 newf = (f + other) if op[3] == "right" else (other + f)
+        elif kind == "clone":
+            # copies made by the standard library are constructions too: equal to the original, same class, and independent of
+            # it (the history continues on the copy, the original is written to and must not show through)
+            import copy
+            import pickle
+            how = op[1]
+            newf = copy.copy(f) if how == "copy" else copy.deepcopy(f) if how == "deepcopy" else pickle.loads(pickle.dumps(f))
+            if type(newf) is not type(f) or len(newf) != len(f) or newf.as_integer != f.as_integer or not (newf == f) or (newf != f):
+                return f, ref, (f"{how} of ({len(f)},{f.as_integer:#x}) is {type(newf).__name__} ({len(newf)},{newf.as_integer:#x}), "
+                                f"== gives {newf == f}")
+            if len(f) > 0:
+                f[0] = not f[0]
+                if (len(newf), newf.as_integer) != pre_state:
+                    return f, ref, f"a write to the original shows in its {how}"
         elif kind == "badadd":
             x = _val(op[1])
             got = (f + x) if op[2] == "right" else (x + f)
@@ -435,19 +449,20 @@ def gen_history(r, maxw=256):
             b = r.choice([0, r.randint(0, top), curw + 3, -2])
             n = abs(a - b) + 1
             v = r.choice([1 << n, -1, (1 << n) + 5, "<str>", "<float>", "<none>", r.getrandbits(n)])
-            step = r.choice([None, None, 2, -1, 1])
+            step = r.choice([None, None, 2, -1, 1, 0, False, 0.0])
             ops.append(["setslice", a, b, v, step])
         elif c < 0.65:
             a = r.choice([top, r.randint(0, top), curw, -1])
             b = r.choice([0, r.randint(0, top)])
-            ops.append(["getslice", a, b, r.choice([None, None, None, 1, 2])])
+            ops.append(["getslice", a, b, r.choice([None, None, None, 1, 2, 0, False, 0.0, -1])])
         elif c < 0.75:
             w2 = r.randint(1, 24)
             if curw + w2 <= maxw:
                 ops.append(["add", w2, r.getrandbits(w2), r.choice(["left", "right"])] + (["iadd"] if r.random() < 0.4 else []))
                 curw += w2
         elif c < 0.78:
-            ops.append(["badadd", r.choice([1, "<none>", "<str>", "<list>"]), r.choice(["left", "right"])])
+            # 0 is what sum() starts from: it is no frame either
+            ops.append(["badadd", r.choice([1, 0, "<false>", "<float>", "<none>", "<str>", "<list>"]), r.choice(["left", "right"])])
         elif c < 0.8:
             # non-integer indices: a TypeError that leaves the frame alone
             bad = r.choice(["<str>", "<float>", "<none>", "<bytes>", "<list>"])
@@ -460,6 +475,8 @@ def gen_history(r, maxw=256):
                 ops.append(["getslice"] + r.choice([[bad, 0], [top, bad], [bad, bad]]))
             else:
                 ops.append(["setslice"] + r.choice([[bad, 0], [top, bad], [bad, bad]]) + [r.choice([0, 1])])
+        elif c < 0.83:
+            ops.append(["clone", r.choice(["copy", "deepcopy", "pickle"])])
         elif c < 0.88:
             ops.append(["views"])
         elif c < 0.92:
